@@ -54,6 +54,9 @@ def write_literals(d):
     return ld
 
 
+SKIPPED = 0
+
+
 def run_dx(variant, cfg_lines, tag, layers, oracle, api='genbbsub', phases=1, deadline=600, extra=(), jobs=16, timeout=3600):
     exe = vlib.build_harness('checks/dx.cc', variant)
     d = vlib.scratch(tag)
@@ -63,7 +66,7 @@ def run_dx(variant, cfg_lines, tag, layers, oracle, api='genbbsub', phases=1, de
     with open(cfg, 'w') as f:
         f.write('\n'.join(cfg_lines) + '\n')
     cmd = [exe, '--cfgfile', cfg, '--out', out, '--layers', layers, '--oracle', oracle, '--api', api, '--phase', str(vlib.SEED),
-           '--phases', str(phases), '--deadline', str(deadline), '--jobs', str(jobs), '--timeout', str(int(deadline + 120))] + list(extra)
+           '--phases', str(phases), '--deadline', str(deadline), '--global-deadline', str(deadline), '--jobs', str(jobs), '--timeout', str(int(deadline + 120))] + list(extra)
     env = dict(os.environ)
     env['ASAN_OPTIONS'] = 'halt_on_error=0:detect_leaks=0:log_path=%s/asan' % d
     env['UBSAN_OPTIONS'] = 'halt_on_error=0:print_stacktrace=1:log_path=%s/ubsan' % d
@@ -74,6 +77,10 @@ def run_dx(variant, cfg_lines, tag, layers, oracle, api='genbbsub', phases=1, de
     if r.returncode != 0:
         raise SystemExit('HARNESS-ERROR: dx exited %d: %s' % (r.returncode, r.stderr[-2000:]))
     res = vlib.read_jsonl(out)
+    # configurations the explorer did not get to before its global deadline: reported, never silently dropped
+    global SKIPPED
+    SKIPPED += sum(1 for r in res if r.get('skipped'))
+    res = [r for r in res if not r.get('skipped')]
     return res, d
 
 
